@@ -48,7 +48,14 @@ func c03Setup(t *testing.T) *c03World {
 		case *pb.PrefixTransportParams:
 			sp.Params = p
 		}
-		if _, err := s.vAdmit(sp); err != nil {
+		_, err := s.vAdmit(sp)
+		for try := 0; err != nil && try < 40 && w.ips[name].To4() == nil; try++ {
+			// the station derives a phantom from the secret before the registrar's override is applied; some secrets
+			// select a subnet group without IPv6 subnets and are refused: take another secret
+			sp.Secret = vSecret(rng)
+			_, err = s.vAdmit(sp)
+		}
+		if err != nil {
 			t.Fatalf("admit %v: %v", sp, err)
 		}
 		fl, err := s.vFlight(sp)
